@@ -20,7 +20,7 @@ def _byteval(v):
             return v
         if bool((v < 0) | (v > 255)):
             raise ValueError('byte must be in range(0, 256)')
-        return v
+        return SInt(v.e, 0, 255)
     if isinstance(v, SBool):
         return SInt.of(v)
     if not isinstance(v, int):
@@ -293,8 +293,11 @@ def _parse(fmt):
             out.append(('s', cnt))
         else:
             raise OutOfModel('struct code %r' % ch)
-    if order == '@' and any((c if isinstance(c, str) else 's') not in 'bBcxs' for c in out):
-        raise OutOfModel('native struct alignment')
+    if order == '@':
+        if len(out) > 1 and any((c if isinstance(c, str) else 's') not in 'bBcxs' for c in out):
+            raise OutOfModel('native struct alignment')
+        out = [{'l': 'q', 'L': 'Q'}.get(c, c) if isinstance(c, str) else c for c in out]   # native long is 8 bytes here
+        return sys.byteorder == 'big', out
     big = order in '>!'
     return big, out
 
@@ -306,8 +309,14 @@ def _to_bytes(v, size, signed, big, exc=None):
         v = SInt.of(v)
     if _isym(v):
         if not v.bv:
-            raise OutOfModel('unbounded int reached a byte encoder')
-        if not (v.lo >= lo and v.hi <= hi):
+            if bool((v < lo) | (v > hi)):
+                raise exc()
+            u = z3.If(v.e < 0, v.e + (1 << (8 * size)), v.e) if signed else v.e
+            bs = [SInt(z3.simplify((u / z3.IntVal(1 << (8 * k))) % 256), 0, 255) for k in range(size)]
+            for k, b in enumerate(bs):
+                b.prov = (u, k, size)      # byte k of the size-byte little-endian expansion of u (0 <= u < 256^size)
+            return bs[::-1] if big else bs
+        elif not (v.lo >= lo and v.hi <= hi):
             if bool((v < lo) | (v > hi)):
                 raise exc()
         bs = [SInt(z3.simplify((v.e >> (8 * k)) & 0xFF), 0, 255) for k in range(size)]
@@ -331,6 +340,21 @@ def _from_bytes(bs, signed, big):
     size = len(bs)
     if not any(_isym(b) for b in bs):
         return int.from_bytes(bytes(bs), 'big', signed=signed)
+    if any(_isym(b) and not b.bv for b in bs):
+        p0 = getattr(bs[0], 'prov', None)
+        if p0 is not None and p0[2] == size and all(
+                getattr(b, 'prov', None) is not None and b.prov[2] == size and b.prov[1] == size - 1 - i and b.prov[0].eq(p0[0])
+                for i, b in enumerate(bs)):
+            e = p0[0]          # sum_k byte_k(u) * 256^k == u   (exact rewrite, 0 <= u < 256^size)
+        else:
+            e = z3.IntVal(0)
+            for b in bs:
+                e = e * 256 + SInt.of(b).to_int_sort().e
+            e = z3.simplify(e)
+        if signed:
+            e = z3.If(e >= (1 << (8 * size - 1)), e - (1 << (8 * size)), e)
+            return SInt(e, -(1 << (8 * size - 1)), (1 << (8 * size - 1)) - 1)
+        return SInt(e, 0, (1 << (8 * size)) - 1)
     e = None
     for b in bs:
         be = SInt.of(b).e
@@ -446,8 +470,10 @@ class SArray:
         lo, hi = (-(1 << (8 * size - 1)), (1 << (8 * size - 1)) - 1) if signed else (0, (1 << (8 * size)) - 1)
         if _isym(v):
             if not v.bv:
-                raise OutOfModel('unbounded int reached array')
-            if not (v.lo >= lo and v.hi <= hi):
+                if bool((v < lo) | (v > hi)):
+                    raise OverflowError('array item out of range')
+                v = v.to_bv(lo, hi)
+            elif not (v.lo >= lo and v.hi <= hi):
                 if bool((v < lo) | (v > hi)):
                     raise OverflowError('array item out of range')
         elif isinstance(v, (float, SReal)):
